@@ -54,6 +54,12 @@ def make_cfg(spec):
 
 
 def task_from_spec(spec):
+    if spec.get("engine") == "E2":
+        from . import e2
+        return e2.task_from_spec(spec)
+    if spec.get("engine") == "E3":
+        from . import e3
+        return e3.task_from_spec(spec)
     sym = Sym(spec["config"]["sym"])
     uni = [ULeg.from_json(sym, d) for d in spec["universe"]]
     return Task(spec["id"], spec["config"], uni)
